@@ -26,6 +26,20 @@ rows={}
 for line in out.splitlines():
     m=re.match(r'^(C\d\d) exit=(\d+) ?(.*)$',line)
     if m: rows[m.group(1)]={"exit":int(m.group(2)),"keys":m.group(3).split()}
+import os,subprocess
+old={}
+try:
+    old=json.load(open(d+'/meta.json'))
+except Exception:
+    pass
+merged=dict(old.get("per_check",{}))
+merged.update(rows)
+rows=merged
+caught=' '.join(sorted(k for k,v in rows.items() if v.get("exit")==1))
+try:
+    commit=subprocess.check_output(['git','-C',os.path.dirname(os.path.abspath(d))+'/..','rev-parse','--short','HEAD']).decode().strip()
+except Exception:
+    commit="?"
 meta={
  "breaks_property": prop,
  "written_by": "independent sub-agent given only the property record and a scratch worktree",
@@ -33,6 +47,7 @@ meta={
  "confirmed": "tools/seed_verify.sh in the agent's worktree: patch applies, repository suite passes with it (94 tests), demo.rs fails with it and passes without it",
  "suite_with_change": next((l for l in out.splitlines() if l.startswith("suite:")), ""),
  "checks_run": "tools/matrix.sh: patch applied to a scratch copy of /repo, the quick checks listed under per_check run against the copy (VERIF_REPO), copy removed; the repository suite with the change was run by tools/seed_verify.sh at intake (verify.txt)",
+ "harness_commit_of_last_run": commit,
  "caught_by": caught.split() if caught and caught!="none" else [],
  "caught_by_own_property": prop in caught.split(),
  "per_check": rows,
